@@ -678,6 +678,14 @@ fn parse_comment_attrs(attrs: &[Attribute]) -> Vec<String> {
             }
             _ => None,
         })
+        // A block doc comment or `#[doc = "a\nb"]` is one attribute holding several lines. Every
+        // backend writes one comment line per entry, so hand them one entry per line; otherwise
+        // the text after the first line break ends up outside of the comment.
+        .flat_map(|doc| {
+            doc.split('\n')
+                .map(|line| line.trim().to_string())
+                .collect::<Vec<_>>()
+        })
         .collect()
 }
 
